@@ -21,6 +21,7 @@ Step(e) ==
     [] e.a = "Uploaded" -> Uploaded(e.s, e.d)
     [] e.a = "Failed"   -> Failed(e.s, e.d)
     [] e.a = "FetchFailed" -> FetchFailed(e.s, e.d)
+    [] e.a = "Notice" -> Notice(e.s, e.d, e.k)
     [] OTHER -> FALSE
 TInit == Init /\ tid \in 1..Len(Traces) /\ l = 1 /\ mode = Traces[tid].mode /\ hostEarly = Traces[tid].he
 TNext ==
